@@ -221,6 +221,9 @@ func (b *Builder) genPair(ctx pairCtx, src, dst *SDecl, nfields int) {
 	for i := 0; i < nfields; i++ {
 		word := baseWords[b.R.Intn(len(baseWords))]
 		name := fmt.Sprintf("%s%d", word, b.next())
+		if b.chance(0.12) {
+			name = fmt.Sprintf("%s_%d", word, b.next()) // underscores are ordinary identifier characters
+		}
 		mech := b.pick(b.P.Mechs)
 		if ctx.depth >= b.P.MaxDepth && (mech == "nested" || mech == "ptrnested" || mech == "embedded") {
 			mech = "same"
@@ -623,6 +626,9 @@ var simpleTypes = []string{"int", "string", "int64", "bool", "float64", "uint8",
 func (b *Builder) genMap(ctx pairCtx, src, dst *SDecl, name string) {
 	m := ctx.m
 	t := simpleTypes[b.R.Intn(len(simpleTypes))]
+	if b.chance(0.15) {
+		t = []string{"[]int", "[]string", "[]byte"}[b.R.Intn(3)] // mapped slices (also out of (slice, error) getters)
+	}
 	dst.Fields = append(dst.Fields, FDecl{Name: name, Type: t})
 	dpath := joinPath(ctx.dstPath, name)
 	variant := b.pick(map[string]int{"field": 4, "getter": 3, "nestedsrc": 2, "arg": 3, "argpath": 2, "unresolved": 1, "wrongcase": 1, "gettererr": 2, "typed": 2, "hiddenseg": 1, "arggettererr": 2})
@@ -1243,6 +1249,11 @@ func (b *Builder) Finish() *Scenario {
 			mi = "import (\n\t\"vb/ext\"\n\t\"vb/vtr\"\n)\n"
 		}
 		ms = strings.Replace(ms, "IMPORTS\n", mi+"\nvar _ = vtr.Reset\n", 1)
+		if b.R != nil && b.chance(0.2) {
+			// the imported package is itself the product of a code generator, this one included: its
+			// declarations are as real as any other
+			ms = []string{"// Code generated by github.com/reedom/convergen\n// DO NOT EDIT.\n\n", "// Code generated by protoc-gen-go. DO NOT EDIT.\n\n"}[b.R.Intn(2)] + ms
+		}
 		s.Files[s.PkgRel+"/m/m.go"] = ms
 	}
 	// setup.go
